@@ -1272,6 +1272,7 @@ def run_impl(case):
                     res = "skip"
                 else:
                     info["label"] = n.label
+                    info["owned"] = n.parent is not None  # it first LEAVES that parent (and lets go of everything)
                     if op[2] == "other" and not other:
                         other.append(Workflow("w2", autoload=None))
                     n.parent = None if op[2] == "none" else other[0] if op[2] == "other" else wf
@@ -1527,6 +1528,10 @@ def model_input(case, impl=None):
             if res != "ok":
                 lines.append(f"echo {res}")
             elif op[2] == "wf":
+                if st["info"].get("owned"):
+                    # coming from the second workflow: that one's remove_child disconnects the node first
+                    for _s, _l, c in _chan_ids(inst, op[1]):
+                        lines.append(f"q disconnectall {c}")
                 lines.append(_decl(inst, op[1], st["info"]["label"]))
             else:
                 lines.append(f"remove {st['info']['label']}")  # leaving is leaving, by whatever route
@@ -1701,6 +1706,18 @@ def oracle(case, r):
                 wired = [(c, l) for c, l in wired if l]
                 if wired:
                     fails.append(_f("left-child-still-wired", k, op, f"{t}: {wired}"))
+
+        # ---- loading a child back in place swaps its channel objects, not its wiring: every new channel is
+        # connected to what the old one of the same panel and label was connected to
+        if op[0] == "load" and res == "ok" and prev is not None:
+            m = {o[2]: n[2] for o, n in zip(_chan_ids(inst, op[1]), _chan_ids(inst, op[3]))}
+            for o, n in m.items():
+                want = sorted(m.get(x, x) for x in prev["conns"][o])
+                have = sorted(st["conns"][n])
+                if want != have or st["conns"][o]:
+                    fails.append(_f("load-changed-wiring", k, op, f"channel #{o} was connected to {prev['conns'][o]}, "
+                                    f"its successor #{n} is connected to {st['conns'][n]} (old: {st['conns'][o]})"))
+                    break
 
         # ---- a child is labelled as the workflow holds it (`child-label__channel-label`)
         for lab, actual in st.get("labels", []):
